@@ -88,3 +88,9 @@ claim("C19",
  "symbolic execution of go/ssa + SMT (expiry/now as 64-bit symbolic instants, credential class as decisions); reflection-based proxy replaced by a tag table generated from the syntax tree",
  "DESIGN.md 6/C19",
  "go-jsonrpc's reflective PermissionedProxy/dispatch and the JWT/HMAC library are models (ideal verdict); transport, client side not covered.")
+
+claim("C15",
+ "Bounded symbolic model checking of the real bridge ingest code: Listener.handleNewBlockEvent / handleNewSignedBlock / storeEDS for every sequence of 2 (quick) / 3 (thorough) block events over 2 heights from 2 sources (duplicates, re-ordering, replayed old height) with one fault per event (fetch, sync status, store put; thorough also store lookup, broadcast), block timestamps and a non-decreasing clock as ARBITRARY symbolic instants, archival/pruned, syncing or not; and full-availability SharesAvailable for every getter outcome x already stored x empty block x store faults x symbolic timestamp. Decided: the square stored under a height is the one built from that height's block and carries the very DAH of the header published / given; a failed ingest stores and publishes nothing and is reported with its error class (not found/deadline -> not available, cancellation, byzantine); a block inside the window is stored with parity and published exactly once; a pruned node never stores (and refuses without fetching) outside the window, an archival node stores there without parity. The boundary (clock crossing the window between two readings) is treated by monotone bounds, not ignored.",
+ "symbolic execution of go/ssa + SMT (timestamps/clock as 64-bit symbolic instants, events and faults as decisions); erasure coding, DAH computation and the store are tagged ideal models",
+ "DESIGN.md 6/C15",
+ "Not covered: MultiSource fan-in goroutines and the listener's subscription/retry loop, the real store (C05/C07), consensus-side consistency of a block with its own data hash (library).")
